@@ -5,7 +5,7 @@ V = os.path.dirname(os.path.dirname(os.path.abspath(__file__)))
 CHECKS = {
  "C10": dict(
    technique="TLA+ comparison actions and shape rules in UTPMachine + dispatch table spec (Dispatch.tla), TLC-generated behaviours replayed; NumPy executed on the zeroth coefficients as the reference the property names",
-   text="Comparison truth values are computed by the spec (NumPy comparison of zeroth coefficients over all elements and directions, with broadcasting) for all behaviours of the bounded machine and compared with bool(x rel y); every TLC-generated behaviour is re-run by NumPy on the zeroth coefficients of each direction and shape/len/size/ndim and the zeroth coefficient of every object must agree after each action; 80 further functions (elementary, special, linear algebra, factorizations with NumPy's signs and pivots, fft, tile, dtype mixes) x shapes x (D,P) are compared with NumPy/SciPy per direction; the dispatch table (first argument providing the method wins, else numpy / numpy.linalg / scipy.linalg) is model-checked and observed through result types and bit-identical plain results.",
+   text="Comparison truth values are computed by the spec (NumPy comparison of zeroth coefficients over all elements and directions, with broadcasting) for all behaviours of the bounded machine and compared with bool(x rel y); every TLC-generated behaviour is re-run by NumPy on the zeroth coefficients of each direction and shape/len/size/ndim and the zeroth coefficient of every object must agree after each action; the shape functions also on wide, tall and single-row/column matrices with diagonal offsets -2..3; 80 further functions (elementary, special, linear algebra, factorizations with NumPy's signs and pivots, fft, tile, dtype mixes) x shapes x (D,P) are compared with NumPy/SciPy per direction; the dispatch table (first argument providing the method wins, else numpy / numpy.linalg / scipy.linalg) is model-checked and observed through result types and bit-identical plain results.",
    note="relational for transcendental and factorization operations (NumPy/SciPy as reference, as stated by the property); != is Python's default negation of == and not claimed",
    design="4 (C10)"),
  "C11": dict(
@@ -15,7 +15,7 @@ CHECKS = {
    design="4 (C11)"),
  "C12": dict(
    technique="truncation theorems model-checked in TLC (MC_TPS TruncLaw, C-matrix leading block) + every TLC-generated behaviour re-run at every D' < D + functions evaluated at every D' against the leading block of the spec's C-matrix",
-   text="TLC proves Trunc(op(x..),D') = op(Trunc(x,D')..) for product, quotient and composition and that the C-matrix for D' is the leading block of that for D; every behaviour of the machine at D = 3,4 is re-run on inputs truncated to each D' < D; every elementary/special function is compared at every D' <= D with the exact expectation; 30 operations (incl. factorizations with repeated eigenvalues, x**y, in-place forms, abs at an exact zero, extract_* read from longer propagations) and reverse sweeps (incl. seeds with vanishing low-order coefficients) are compared between D and every D' < D; D = 1 equals the plain NumPy value (C10 zeroth mode).",
+   text="TLC proves Trunc(op(x..),D') = op(Trunc(x,D')..) for product, quotient and composition and that the C-matrix for D' is the leading block of that for D; every behaviour of the machine at D = 3,4 is re-run on inputs truncated to each D' < D; every elementary/special function is compared at every D' <= D with the exact expectation; 30 operations (incl. factorizations with repeated eigenvalues, x**y, in-place forms, abs at an exact zero, extract_* read from longer propagations; branch-selecting functions maximum/minimum/max/absolute/sign/comparisons on data with ties at every order) and reverse sweeps (incl. seeds with vanishing low-order coefficients) are compared between D and every D' < D; D = 1 equals the plain NumPy value (C10 zeroth mode).",
    note="relational for operations without an exact spec value",
    design="4 (C12)"),
  "C08": dict(
@@ -45,7 +45,7 @@ CHECKS = {
    design="3.9, 4 (C17)"),
  "C03": dict(
    technique="TLA+ transition system of the tracer's reverse sweep (Tracer.tla: adjoint buffers mirroring views, saved/restored in-place writes, roll-forward) model-checked against ybar^T J from forward-mode series carried in a fresh reference execution; TLC behaviours replayed through the real CGraph; C-matrix x mpmath for analytic pullbacks",
-   text="TLC checks AdjointCorrect (reverse sweep = ybar^T J along the curve, every Taylor order) for every program up to the instruction bound over {views, in-place buffer writes, +,-,*,/, integer powers, sum, constants, reversed views}, from a plain and a buffered prefix, D=2, non-symmetric seeds; every behaviour is replayed through real Function/CGraph objects and xbar compared exactly. Unary analytic functions recorded through the tracer are checked against spec C-matrix x mpmath for all coefficient patterns (two sweeps). The remaining API (linear algebra, factorizations, reductions with axis, broadcasting with constants, fft, tile, reshape of transposed data) is checked with the dot-product identity of the property against forward mode.",
+   text="TLC checks AdjointCorrect (reverse sweep = ybar^T J along the curve, every Taylor order) for every program up to the instruction bound over {views, in-place buffer writes of cells and of whole buffers (an array, or a scalar that is broadcast), +,-,*,/, integer powers, square, reciprocal, sum, prod, dot, constants, reversed views}, from a plain and a buffered prefix, D=2, non-symmetric seeds; every behaviour is replayed through real Function/CGraph objects and xbar compared exactly. Unary analytic functions recorded through the tracer are checked against spec C-matrix x mpmath for all coefficient patterns (two sweeps). The remaining API (linear algebra, factorizations, reductions with axis, broadcasting with constants, item assignment with N-d broadcasting, full reductions over non-mergeable views, fft, tile, reshape of transposed data) is checked with the dot-product identity of the property against forward mode.",
    note="program length <= 3 after the prefix (4 in thorough), N=2 input cells, D<=2 in the spec (analytic part D<=5); each full-API program also runs with every intermediate value consumed once more by a later operation (pullbacks must accumulate); the full-API fragment is relational (J v from algopy's forward mode by a 4-point stencil in h, tolerance 2e-6)",
    design="3.7, 4 (C03)"),
  "C04": dict(
@@ -61,7 +61,7 @@ CHECKS = {
  "C06": dict(
    technique="TLA+ call histories on the tracer model (forward evaluation at other points/degrees/kinds, reverse sweeps with other seeds, drivers, unrelated graphs) with every call's result checked against the reference of that call's arguments; deviation switches reproduce the pre-fix defects as TLC counterexamples; histories replayed on the real graph",
    text="For every program and every history of <= 3 (4) calls TLC evaluates ReplayIsProgram / ForwardValuesStable / AdjointCorrect / DriverCorrect after each call; every history is replayed on the real CGraph comparing each return value exactly and the dependent's forward value before/after each sweep. Full-API programs (tan, sqrt, erf, dot, inv, solve, qr, eigh, buffers) are run through pushforward elsewhere; pullback; pushforward; three pullbacks and compared with a fresh graph and among themselves; all node values must be unchanged by the sweeps.",
-   note="bounded programs/histories (real data; the complex instance of the model for real/complex data alternating on one graph); results handed out by earlier calls are held by reference and must keep their values over later calls; full-API part is relational (fresh graph as reference), as the property states ('a function of that call's arguments only')",
+   note="bounded programs/histories, incl. a bare reverse sweep directly after a single-direction driver (real data; the complex instance of the model for real/complex data alternating on one graph); results handed out by earlier calls are held by reference and must keep their values over later calls; full-API part is relational (fresh graph as reference), as the property states ('a function of that call's arguments only')",
    design="3.7, 4 (C06)"),
  "C02": dict(
    technique="TLA+ state machine of UTPM objects on an explicit heap (UTPMachine over TPS/NDA), TLC bounded-exhaustive + simulation; every TLC behaviour replayed into algopy with the full projected heap compared after each action",
@@ -71,7 +71,7 @@ CHECKS = {
  "C13": dict(
    technique="TLA+ heap/view model (NDA: cell lists, basic indexing, permutation, reshape, broadcasting) + UTPMachine shape actions; TLC behaviours replayed with memory-sharing comparison by byte address and per-slice NumPy cross-check",
    text="For every behaviour of shape actions TLC generates (all index expressions of the catalogue: ints, negative ints, slices with positive/negative steps, Ellipsis, newaxis, tuples; UTPM/array/scalar right-hand sides; transpose; reshape; sum over any axis), the real objects must have the spec's shape, values and exactly the spec's memory sharing after each action, and each operation must equal the NumPy operation on every coefficient slice.",
-   note="bounded shapes and catalogue of index expressions; reshape only where NumPy's view/copy choice is unambiguous; tile/diag/triu/tril/trace/symvec/fft are covered by the extended machine actions listed in DESIGN",
+   note="bounded shapes and catalogue of index expressions; reshape only where NumPy's view/copy choice is unambiguous; tile/diag/triu/tril/trace (square and rectangular matrices, offsets -2..2)/symvec/fft are covered by the extended machine actions listed in DESIGN",
    design="3.3, 3.4, 4 (C13)"),
  "C14": dict(
    technique="TLA+ action property Frame on UTPMachine (no non-in-place action changes an existing cell); aliased/in-place forms defined from the pre-state; TLC behaviours mixing views and in-place operators replayed with every operand compared after each action",
@@ -86,7 +86,7 @@ CHECKS = {
  "C15": dict(
    technique="TLA+ spec of the interpolation identity (exact rationals), TLC exhaustive over (N,d); spec-generated Gamma rows replayed against exact_interpolation",
    text="TLC proves, in exact rational arithmetic, sum_j Gamma(i,j) ray_j^alpha = [i=alpha] for every (N,d) and every pair of multi-indices within the bounds, with the multi-index set defined as a set (not by the recursive generator); every Gamma entry, the index list and the rays of the implementation are compared with the spec's values.",
-   note="bounded (N,d) (quick N<=4,d<=4; thorough N<=5,d<=5, at most 130 monomials); float Gamma vs exact rational with 1e-10 relative tolerance; default seed matrix S=I",
+   note="bounded (N,d) (quick N<=4,d<=6, at most 40 monomials; thorough N<=5,d<=6, at most 130); for d = 7..10 (N <= 3) TLC's 32-bit rationals overflow: there the identity is evaluated on the implementation's Gamma with the exact integer matrix V (relational, no spec-generated Gamma rows); float Gamma vs exact rational with 1e-10 relative tolerance; default seed matrix S=I",
    design="4 (C15)"),
 }
 
